@@ -435,3 +435,56 @@ def isinstance_excludes(eng, fn: FunctionInfo, node: ast.AST, carriers) -> Optio
             return f"`{norm(t.ast)}` excludes {missing}"
     return None
 
+
+# call sites where a same-named parameter is deliberately not handed on (confirmed by reading; one line of reason each)
+FORWARDING_EXCEPTIONS = {
+    ("rfc7797.compact:serialize_compact", "jws:serialize_compact", "algorithms"): "passes the registry it built from `algorithms` instead (checked by C05 R05.13)",
+    ("rfc7797.compact:deserialize_compact", "jws:deserialize_compact", "algorithms"): "passes the registry it built from `algorithms` instead (C05 R05.13)",
+    ("rfc7797.json:serialize_json", "jws:serialize_json", "algorithms"): "passes the registry it built from `algorithms` instead (C05 R05.13)",
+    ("rfc7797.json:deserialize_json", "jws:deserialize_json", "algorithms"): "passes the registry it built from `algorithms` instead (C05 R05.13)",
+    ("_keys:KeySet.as_dict", "rfc7517.models:BaseKey.as_dict", "params"): "passes **params (keyword expansion)",
+    ("rfc7519.registry:JWTClaimsRegistry.__init__", "rfc7519.registry:ClaimsRegistry.__init__", "kwargs"): "passes **kwargs (keyword expansion)",
+    ("rfc7516.models:CompactEncryption.attach_recipient", "rfc7516.models:Recipient.__init__", "header"): "compact JWE has no per-recipient header: None by construction",
+    ("jwe:encrypt_json", "jwk:guess_key", "obj"): "the object whose headers name the key is the recipient, not the message",
+    ("rfc7797.compact:_extract_compact", "rfc7515.model:CompactSignature.__init__", "payload"): "attached form: the payload is the token's own segment (the detached branch passes the parameter)",
+    ("rfc7517.pem:CryptographyBinding.as_bytes", "rfc7517.pem:dump_pem_key", "private"): "the 'export what the key holds' branch passes key.is_private (decided by C12 R12.7)",
+}
+
+
+def forwarding_discipline(ctx, rule: str, params: Iterable[str], minimum: int) -> None:
+    """wherever a function that has a parameter named p calls a function that also has a parameter named p, it hands on p itself or a
+    value derived from p (to_bytes(p), p.attr, p(...)); anything else - another variable, a constant, an omitted argument - is a
+    mis-routed or dropped argument unless the site is in the frozen exception table.  (On the unchanged tree 400+ sites follow
+    this, about thirty in derived form; inferred statistically, every exception confirmed by reading.)"""
+    eng = ctx.eng
+    want = set(params)
+    n = 0
+    for fn in eng.prog.all_functions():
+        if fn.name == "<module>":
+            continue
+        mine = want & set(fn.params)
+        if not mine:
+            continue
+        for s in eng.cg.calls_in(fn):
+            if not isinstance(s.node, ast.Call):
+                continue
+            for c in s.callees:
+                if c is fn:
+                    continue
+                for p in mine & set(c.params):
+                    if p in ("self", "cls"):
+                        continue
+                    n += 1
+                    a = eng.cg.arg_for_param(s, c, p)
+                    ok = a is not None and any(isinstance(x, ast.Name) and x.id == p for x in ast.walk(a))
+                    if not ok and isinstance(a, ast.Name):
+                        # a local that was computed from p (`_value = to_bytes(value)`)
+                        ok = any(f"{p}" in t_ and (f"({p}" in t_ or f"{p}." in t_ or f"{p})" in t_ or t_ == p) for t_ in resolve_all(eng, fn, a))
+                    if not ok and (fn.short, c.short, p) in FORWARDING_EXCEPTIONS:
+                        ctx.ok(rule, f"{fn.short} -> {c.short} :: {p}", "exception: " + FORWARDING_EXCEPTIONS[(fn.short, c.short, p)])
+                        continue
+                    ctx.check(ok, rule, fn, s.node, f"{fn.short} -> {c.short} :: {p}", f"{fn.short} calls {c.short} without handing on its `{p}` "
+                              f"({'argument omitted: the callee default applies' if a is None else 'passes `' + norm(a)[:40] + '`'})", f"{p}={p} (or a value derived from it)",
+                              construct=f"forwarding of {p}: {fn.short} -> {c.short}")
+    ctx.count(rule, n, minimum, f"same-name forwarding sites for {sorted(want)}")
+
